@@ -259,8 +259,8 @@ def run_check(prop, units, tier, seed, level, technique_text, trusted_base, repl
             pending = nxt
             if pending:
                 time.sleep(0.01)
-    for r in results:
-        if not r["obligations"] and not r["error"] and not r["undecided"]:
+    for u, r in zip(units, results):
+        if not r["obligations"] and not r["error"] and not r["undecided"] and not getattr(u, "may_be_empty", False):
             r["error"] = "unit produced zero obligations for %s (engine fault)" % prop
 
     extra = []
